@@ -443,3 +443,33 @@ func (v Value) lisp(sb *strings.Builder) {
 		sb.WriteString("<" + v.String() + ">")
 	}
 }
+
+// ToImplLoose is ToImpl for values that may contain functions / opaque parts
+// (rendered as symbols), used only for printing reference results.
+func ToImplLoose(v Value) types.MalType {
+	switch v.K {
+	case KFn:
+		return types.Symbol{Val: "<fn>"}
+	case KOpaque:
+		return types.Symbol{Val: "<" + v.S + ">"}
+	case KList:
+		out := make([]types.MalType, len(v.Elems))
+		for i, e := range v.Elems {
+			out[i] = ToImplLoose(e)
+		}
+		return types.List{Val: out}
+	case KVec:
+		out := make([]types.MalType, len(v.Elems))
+		for i, e := range v.Elems {
+			out[i] = ToImplLoose(e)
+		}
+		return types.Vector{Val: out}
+	case KMap:
+		m := map[string]types.MalType{}
+		for _, e := range v.Ents {
+			m[e.K.Impl()] = ToImplLoose(e.V)
+		}
+		return types.HashMap{Val: m}
+	}
+	return ToImpl(v)
+}
